@@ -2,6 +2,7 @@
    Proofs/TagsSpec.lean. -/
 import Frugal.Tags
 import Frugal.Proofs.TagsSpec
+import Frugal.Proofs.BuildCacheLemmas
 import Frugal.Props.Instances
 namespace Frugal.C13
 open Frugal
@@ -124,9 +125,44 @@ theorem one_bad_field_rejects_struct (gs : GoStruct) (pre post : List GoField) (
 theorem duplicate_ids_rejected (gs : GoStruct) (sd : SDesc) (h : resolveStruct gs = some sd) :
     sd.fields.Pairwise (fun a b => a.id < b.id) := (resolveStruct_fields gs sd h).1
 
+/-- a type is accepted exactly when every struct reachable from it (through fields, elements,
+    keys, values, pointers; itself included) resolves -/
+theorem accepted_iff_all_reachable_resolve (U : Universe) (sid : Nat) :
+    accepted U sid = true ↔ BGood (resolveAll U) (sid, false) :=
+  useType_ok_iff (resolveAll U) sid {} (cinv_empty _)
+
 /-- a type whose own definition is rejected is not accepted -/
 theorem accepted_needs_own_definition (U : Universe) (sid : Nat) (h : accepted U sid = true) :
-    ∃ sd, (resolveAll U).getD sid none = some sd := accepted_resolves U sid h
+    ∃ sd, (resolveAll U).getD sid none = some sd :=
+  good_resolves _ ((accepted_iff_all_reachable_resolve U sid).1 h)
+
+/-- … nor is a type that nests a rejected one, at any depth -/
+theorem nested_rejected_rejects (U : Universe) (sid : Nat) (k : BKey)
+    (hreach : BReach (resolveAll U) (sid, false) k) (hbad : (resolveAll U).getD k.1 none = none) :
+    accepted U sid = false := by
+  cases h : accepted U sid with
+  | false => rfl
+  | true =>
+    have := (accepted_iff_all_reachable_resolve U sid).1 h k hreach
+    unfold bres at this
+    rw [hbad] at this
+    cases this
+
+/-- the rejection is the same on every call: after any history of uses (successful or failed, of
+    this type or others, first met on its own or nested) the outcome is that of a fresh process -/
+theorem same_outcome_after_any_history (U : Universe) (hist : List Nat) (sid : Nat) :
+    (useType (resolveAll U) sid (useAll (resolveAll U) hist {})).1 = accepted U sid :=
+  use_history_independent (resolveAll U) hist sid
+
+/-- a rejected use stores nothing: the descriptor caches are exactly as before the call -/
+theorem rejected_use_stores_nothing (U : Universe) (sid : Nat) (st : CacheSt)
+    (h : (useType (resolveAll U) sid st).1 = false) : (useType (resolveAll U) sid st).2 = st :=
+  useType_fail_unchanged (resolveAll U) sid st h
+
+/-- … and so does not affect other types: whatever is in the caches is accepted -/
+theorem caches_hold_only_accepted (U : Universe) (hist : List Nat) :
+    CInv (resolveAll U) (useAll (resolveAll U) hist {}) :=
+  useAll_inv (resolveAll U) hist {} (cinv_empty _)
 
 /-- arguments that are not a (pointer to a) struct: EncodedSize panics with an ordinary Go panic,
     EncodeObject and DecodeObject return errors -/
